@@ -49,6 +49,7 @@ def main():
     ap.add_argument("--tests", action="store_true")
     ap.add_argument("--tier", default="quick")
     ap.add_argument("--runs", type=int)
+    ap.add_argument("--kind", choices=["revert", "patch"])
     a = ap.parse_args()
     results = {}
     resfile = os.path.join(VERIF, "selftest", "mutants.json")
@@ -57,6 +58,8 @@ def main():
     only = set(a.only.split(",")) if a.only else None
     for m in mutants():
         if only and m["id"] not in only:
+            continue
+        if a.kind and m["kind"] != a.kind:
             continue
         wt = f"/tmp/dst-mut-{m['id']}"
         sh(f"git -C /repo worktree remove --force {wt}")
